@@ -33,18 +33,18 @@ type sgOp struct {
 }
 
 type sgPeerCfg struct {
-	Semantics   int  `json:"semantics,omitempty"` // 0 unified, 1 plan-b, 2 unified with fallback
-	Bundle      int  `json:"bundle,omitempty"`    // BundlePolicy 0..3
-	AlwaysDC    bool `json:"always_dc,omitempty"`
-	MediaFP     bool `json:"media_fp,omitempty"` // fingerprints at media level
-	Codecs      int  `json:"codecs,omitempty"`   // media engine variant
-	Lite        bool `json:"lite,omitempty"`
-	AnswerRole  int  `json:"answer_role,omitempty"` // 0 unset 1 client 2 server
-	PoolSize    int  `json:"pool,omitempty"`
-	RTCPMux     int  `json:"rtcp_mux,omitempty"`
-	CodecSeed   uint64 `json:"codec_seed,omitempty"`
-	TwoCerts    bool   `json:"two_certs,omitempty"`     // created with two certificates
-	HandlerAns  bool   `json:"handler_answer,omitempty"` // the application calls CreateAnswer from OnSignalingStateChange(have-remote-offer)
+	Semantics  int    `json:"semantics,omitempty"` // 0 unified, 1 plan-b, 2 unified with fallback
+	Bundle     int    `json:"bundle,omitempty"`    // BundlePolicy 0..3
+	AlwaysDC   bool   `json:"always_dc,omitempty"`
+	MediaFP    bool   `json:"media_fp,omitempty"` // fingerprints at media level
+	Codecs     int    `json:"codecs,omitempty"`   // media engine variant
+	Lite       bool   `json:"lite,omitempty"`
+	AnswerRole int    `json:"answer_role,omitempty"` // 0 unset 1 client 2 server
+	PoolSize   int    `json:"pool,omitempty"`
+	RTCPMux    int    `json:"rtcp_mux,omitempty"`
+	CodecSeed  uint64 `json:"codec_seed,omitempty"`
+	TwoCerts   bool   `json:"two_certs,omitempty"`      // created with two certificates
+	HandlerAns bool   `json:"handler_answer,omitempty"` // the application calls CreateAnswer from OnSignalingStateChange(have-remote-offer)
 }
 
 type sgCase struct {
@@ -55,12 +55,12 @@ type sgCase struct {
 }
 
 type sgSnap struct {
-	State              string
-	PL, CL, PR, CR     string // description tokens
-	Local, Remote      string
-	SigEvents          int
-	NegFires           int
-	Closed             bool
+	State          string
+	PL, CL, PR, CR string // description tokens
+	Local, Remote  string
+	SigEvents      int
+	NegFires       int
+	Closed         bool
 }
 
 type sgMsg struct {
@@ -70,43 +70,43 @@ type sgMsg struct {
 }
 
 type sgRec struct {
-	Idx      int
-	Op       sgOp
-	Kind     string // setlocal | setremote | create-offer | create-answer | media | other
-	Side     string // local | remote
-	Type     string // sdp type of the description involved
-	Err      string
-	ErrKind  string // InvalidState | InvalidModification | Type | other | ""
-	Pre      sgSnap
-	Post     sgSnap
-	Desc     *SessionDescription // created or applied description (as passed to the API)
-	Implied  *SessionDescription // JSEP 5.4: the created description an empty SetLocalDescription stands for
-	Tamper   string
-	Foreign  bool
-	EmptySDP bool
+	Idx       int
+	Op        sgOp
+	Kind      string // setlocal | setremote | create-offer | create-answer | media | other
+	Side      string // local | remote
+	Type      string // sdp type of the description involved
+	Err       string
+	ErrKind   string // InvalidState | InvalidModification | Type | other | ""
+	Pre       sgSnap
+	Post      sgSnap
+	Desc      *SessionDescription // created or applied description (as passed to the API)
+	Implied   *SessionDescription // JSEP 5.4: the created description an empty SetLocalDescription stands for
+	Tamper    string
+	Foreign   bool
+	EmptySDP  bool
 	Undrained bool // queued work did not finish within the drain budget: "each call's queued work finishes before the next" does not hold here
-	Note     string
+	Note      string
 }
 
 type sgPeerState struct {
-	p          *vfPeer
-	cfg        sgPeerCfg
-	created    []SessionDescription // everything CreateOffer/CreateAnswer returned, in order
-	lastOffer  *SessionDescription  // remote offer most recently applied successfully
-	inbox      []sgMsg
-	tracks     []TrackLocal
-	senders    []*RTPSender
-	dcs        int
-	trSeen     []*RTPTransceiver
-	changes    []sgChange
-	closed     bool
-	gen        *sgGenState
+	p             *vfPeer
+	cfg           sgPeerCfg
+	created       []SessionDescription // everything CreateOffer/CreateAnswer returned, in order
+	lastOffer     *SessionDescription  // remote offer most recently applied successfully
+	inbox         []sgMsg
+	tracks        []TrackLocal
+	senders       []*RTPSender
+	dcs           int
+	trSeen        []*RTPTransceiver
+	changes       []sgChange
+	closed        bool
+	gen           *sgGenState
 	explicitPrefs bool // SetCodecPreferences was given codecs with explicit (local) payload types
-	trackOf    map[*RTPSender]TrackLocal
-	trackSet   []*RTPSender
-	handlerAns []SessionDescription // answers the OnSignalingStateChange handler created
-	foreign    *sgForeignSession
-	partner    string // "", "pion" or "foreign": a connection negotiates with one remote party only
+	trackOf       map[*RTPSender]TrackLocal
+	trackSet      []*RTPSender
+	handlerAns    []SessionDescription // answers the OnSignalingStateChange handler created
+	foreign       *sgForeignSession
+	partner       string // "", "pion" or "foreign": a connection negotiates with one remote party only
 }
 
 // sgChange is a change that requires negotiation (C04).
